@@ -422,8 +422,22 @@ class AtomicSaver:
                 do_chmod = False  # respect the umask
 
         fd = os.open(self.part_path, self.open_flags, file_perms)
-        set_cloexec(fd)
-        self.part_file = os.fdopen(fd, self.mode, self.buffering)
+        try:
+            set_cloexec(fd)
+            self.part_file = os.fdopen(fd, self.mode, self.buffering)
+        except Exception:
+            # the part file exists by now: do not leave it (or the
+            # descriptor) behind, e.g. for unbuffered text mode
+            try:
+                os.close(fd)
+            except OSError:
+                pass
+            if self.rm_part_on_exc:
+                try:
+                    os.unlink(self.part_path)
+                except OSError:
+                    pass
+            raise
 
         # if default perms are overridden by the user or previous dest_path
         # chmod away the effects of the umask
